@@ -289,7 +289,9 @@ Definition do_init (cfg : config) (h : hdr) (r : bytes) (fr : fsres) : decision 
       let c := mk "init" (0, 0, 0) [AN capable] in
       match fr with
       | FInit want =>
-        let enabled := N.land capable want in
+        (* capable & want, plus the INIT_EXT marker whenever the client used the extended form
+           (D5 of DESIGN.md section 4, repaired in /repo by a fix: commit) *)
+        let enabled := N.lor (N.land capable want) (N.land capable INIT_EXT_BIT) in
         let mw0 := MIN_READ_BUFFER - BUFFER_HEADER_SIZE in
         let mw1 := if land32 enabled BIG_WRITES_BIT then MAX_REQ_PAGES * PAGE_SIZE else mw0 in
         let mp := if land32 enabled MAX_PAGES_BIT then MAX_REQ_PAGES else 0 in
